@@ -122,7 +122,7 @@ def Code.funOf (c : Code) (d0 : Nat) : Option (FunKind × List Param × Tm) := (
 
 /-- all function bodies of a program, by the binder id of their slot 0 -/
 def funTable : Tm → List (Nat × FunKind × List Param × Tm)
-  | .nil | .lit _ | .str _ | .var _ _ => []
+  | .nil | .lit _ | .str _ | .nilE | .var _ _ | .letN _ _ => []
   | .seq a b => funTable a ++ funTable b
   | .assign _ _ e => funTable e
   | .op _ args => funTable args
@@ -199,16 +199,42 @@ def truncate (fr : Frame) (n : Nat) : Frame := { fr with slots := fr.slots.extra
 a reason that has nothing to do with scoping. -/
 def inRange (r : Int) : MCtl := if r.natAbs ≤ 9007199254740992 then .norm (.num r) else .fail "range"
 
+def MVal.kind : MVal → Nat
+  | .undef => 0 | .nil => 1 | .num _ => 2 | .bool _ => 3 | .str _ => 4 | .clo .. => 5
+  | .list _ => 6 | .obj _ => 7 | .cls _ => 8 | .err _ => 9 | .builtin _ => 10 | .box _ => 11
+
+/-- `op_equal` (`Value::eq`): see `Sem.valEq` -/
+def valEq (a b : MVal) : MCtl :=
+  match a, b with
+  | .undef, _ | _, .undef => .fail "operands"
+  | .box _, _ | _, .box _ => .fail "operands"
+  | .num x, .num y => .norm (.bool (x == y))
+  | .bool x, .bool y => .norm (.bool (x == y))
+  | .nil, .nil => .norm (.bool true)
+  | .str x, .str y => .norm (.bool (x == y))
+  | .list x, .list y => .norm (.bool (x == y))
+  | .obj x, .obj y => .norm (.bool (x == y))
+  | .cls x, .cls y => .norm (.bool (x == y))
+  | a, b => if a.kind ≠ b.kind then .norm (.bool false) else .fail "operands"
+
 def arith (k : OpKind) (a b : MVal) : MCtl :=
   match k, a, b with
   | .add, .num x, .num y => inRange (x + y)
   | .sub, .num x, .num y => inRange (x - y)
   | .mul, .num x, .num y => inRange (x * y)
   | .lt, .num x, .num y => .norm (.bool (x < y))
-  | .eq, .num x, .num y => .norm (.bool (x == y))
-  | .eq, .bool x, .bool y => .norm (.bool (x == y))
-  | .eq, .nil, .nil => .norm (.bool true)
+  | .eq, a, b => valEq a b
   | _, _, _ => .fail "operands"
+
+/-- `let x;` on the machine: `declare_variable` (`EmptyBox` for a boxed local), `Nil`, `define_variable`
+(`FillBox` / the value stays in the new slot / `SetModSym`) -/
+def letNStep (code : Code) (d : Nat) (fr : Frame) (st : MSt) : MCtl × Frame × MSt :=
+  match declareSlot code d st fr with
+  | none => (.fail "declare", fr, st)
+  | some (st, fr) =>
+    match defineSlot code d .nil st fr with
+    | some (st, fr) => (.norm .nil, fr, st)
+    | none => (.fail "define", fr, st)
 
 /-- `Closure`/constant for the function `d0`, executed in frame `fr` -/
 def mkClosure (code : Code) (fr : Frame) (d0 : Nat) : Option MVal :=
@@ -235,6 +261,7 @@ def mev (code : Code) : Nat → Tm → Frame → MSt → MCtl × Frame × MSt
       | r => r
     | .lit n => (.norm (.num n), fr, st)
     | .str s => (.norm (.str s), fr, st)
+    | .nilE => (.norm .nil, fr, st)
     | .var o x =>
       match code.path o with
       | none => (.fail ("no path " ++ x), fr, st)
@@ -297,6 +324,7 @@ def mev (code : Code) : Nat → Tm → Frame → MSt → MCtl × Frame × MSt
           | some (st, fr) => (.norm .nil, fr, st)
           | none => (.fail "define", fr, st)
         | r => r
+    | .letN d _ => letNStep code d fr st
     | .fnS d _ _ d0 _ _ =>
       match declareSlot code d st fr with
       | none => (.fail "declare", fr, st)
